@@ -292,6 +292,7 @@ type scenario struct {
 	revNameBefore string
 	memoBefore    []interface{}
 	custBefore    interface{}
+	custExpected  interface{}
 	// the fair environment leaves observedGeneration one behind this round
 	lag bool
 	// the fair environment makes the first child unhealthy this round (0 = no; 1-3 = how observedGeneration is reported)
@@ -660,7 +661,7 @@ func (sc *scenario) traceLine(i int, seed uint64, storeBefore []map[string]inter
 	calls := w.sim.LogCopy()
 	cacheAfter := w.cacheDump()
 	return vs.M{"kind": "sync", "ctl": "composite", "case": i, "seed": seed, "cfg": sc.Cfg, "key": sc.key, "revName": sc.revNameBefore,
-		"memoBefore": sc.memoBefore, "customizeCached": sc.custBefore,
+		"memoBefore": sc.memoBefore, "customizeCached": sc.custBefore, "customizeExpected": sc.custExpected,
 		"cache": cacheBefore, "storeBefore": storeBefore, "calls": calls, "storeAfter": w.sim.Snapshot(), "defs": w.sim.Defs(),
 		"result": vs.M{"outcome": outcome, "detail": detail, "queue": w.q.Ops},
 		"cacheIntact": vs.MustJSON(cacheBefore) == vs.MustJSON(cacheAfter)}
@@ -738,6 +739,7 @@ func (sc *scenario) syncOnce(i int, seed uint64) vs.M {
 	sc.revNameBefore = sc.revName()
 	sc.memoBefore = w.memoDump()
 	sc.custBefore = w.customizeCached("p1")
+	sc.custExpected = w.customizeExpected("p1")
 	outcome, detail := w.runSync(sc.key)
 	w.noteApplies()
 	return sc.traceLine(i, seed, storeBefore, cacheBefore, outcome, detail)
